@@ -723,3 +723,8 @@ def EXTRACT(repo):
         if fn:
             out.update(fn(repo))
     return out
+
+# --- source tie (translator pass 4: the validating constructors regenerated from /repo/src into Generated/SrcC18.lean,
+# proved equal to the record model in Props/SrcTieC18.lean)
+from . import srctie
+srctie.wire(globals(), 'C18')
